@@ -80,12 +80,83 @@ def resolve_ctor(expr, sigs):
     return None
 
 
+def resolve_def(ctx, mod, st, sigs):
+    """Term-level resolution of a distribution definition `name = <expr>`: the right-hand side is evaluated with the symbolic evaluator at
+    module level (private factory helpers are inlined, getattr(tfd, "X") is tfd.X), the tfp_distribution(constructor, ...) call is located
+    in the value, and the constructor - a TFP class, a lambda, or a module-level function around tfd.Class(...) - is applied to its own
+    parameters.  Returns (class, [tfp parameter bound by positional i], {fixed keyword: text}, lambda parameter names | None)."""
+    from ..symeval import Frame, ts
+    ev = mk_ev(ctx)
+    fr = Frame(ev, mod, mod.name + ".<module>")
+    try:
+        val = ev.expr(st.value, fr)
+    except Exception as e:   # noqa: BLE001
+        raise AnalysisError(f"distributions.{unp(st.targets[0])}: definition not evaluable ({type(e).__name__}: {e})")
+    calls = [x for x in subterms(val) if is_call(x) and x[1][0] == "name" and x[1][1].endswith("tfp_distribution")]
+    if not calls:
+        return None
+    c = calls[0]
+    ctor = c[2][0] if c[2] else dict(c[3]).get("dist")
+    if ctor is None:
+        return None
+
+    def tfd_class(fn):
+        if fn[0] == "name" and (".tfd." in fn[1] or fn[1].startswith("tfd.") or (".distributions." in fn[1] and not fn[1].startswith("genjax."))):
+            return fn[1].rsplit(".", 1)[-1]
+        return None
+    cls = tfd_class(ctor)
+    if cls is not None:
+        return cls, list(sigs.get(cls, [])), {}, None
+    # a lambda / module-level function around tfd.Class(...)
+    if ctor[0] == "closure":
+        node = ev.closures[ctor[1]].node
+        lam_params = [a.arg for a in node.args.args]
+        body = ev.apply_closure(ctor, tuple(("param", p_) for p_ in lam_params), ())
+    elif ctor[0] == "name" and ctor[1].startswith("genjax."):
+        look = ctx.p.lookup(ctor[1])
+        if look is None or look[0] != "func":
+            return None
+        lam_params = [a.arg for a in look[1].args.args]
+        body = ev.eval_funcnode(look[1], look[2], ctor[1], args=tuple(("param", p_) for p_ in lam_params), kwargs=()).ret
+    else:
+        return None
+    if body is None or not is_call(body):
+        return None
+    cls = tfd_class(body[1])
+    if cls is None:
+        return None
+    sig = sigs.get(cls, [])
+    binding, fixed = {}, {}
+    for i, a in enumerate(body[2]):
+        if a[0] == "param" and a[1] in lam_params and i < len(sig):
+            binding[a[1]] = sig[i]
+    for k, v in body[3]:
+        if k is None:
+            continue
+        if v[0] == "param" and v[1] in lam_params:
+            binding[v[1]] = k
+        else:
+            fixed[k] = ts(v, ev).replace("jax.numpy.", "jnp.")
+    # exact re-parameterisation (catalogue): N(loc, Sigma) written as MultivariateNormalTriL(loc, scale_tril=cholesky(Sigma)) is the covariance
+    # parameterisation, provided the Cholesky factor is taken of the parameter itself (a jittered / scaled covariance is a different distribution)
+    if cls == "MultivariateNormalTriL":
+        tril = dict((k, v) for k, v in body[3] if k is not None).get("scale_tril") or (body[2][1] if len(body[2]) >= 2 else None)
+        if tril is not None and is_call(tril) and tril[1][0] == "name" and tril[1][1].rsplit(".", 1)[-1] == "cholesky" and len(tril[2]) == 1 \
+                and tril[2][0][0] == "param" and tril[2][0][1] in lam_params and all(k == "lower" and v == C(True) for k, v in tril[3]):
+            binding[tril[2][0][1]] = "covariance_matrix"
+            fixed.pop("scale_tril", None)
+            cls = "MultivariateNormalFullCovariance"
+    return cls, [binding.get(p_) for p_ in lam_params], fixed, lam_params
+
+
 def docs_of(mod):
-    """name -> (first docstring line, [Args names]) for `name = tfp_distribution(...)` followed by a string."""
+    """name -> (assignment, first docstring line, [Args names], docstring) for every module-level `name = <call>` followed by a docstring
+    (the distribution definitions, however they are spelled)."""
     out = {}
     body = mod.tree.body
     for i, st in enumerate(body):
-        if isinstance(st, ast.Assign) and isinstance(st.value, ast.Call) and unp(st.value.func) == "tfp_distribution" and isinstance(st.targets[0], ast.Name):
+        if isinstance(st, ast.Assign) and isinstance(st.value, ast.Call) and len(st.targets) == 1 and isinstance(st.targets[0], ast.Name) \
+                and i + 1 < len(body) and isinstance(body[i + 1], ast.Expr) and isinstance(body[i + 1].value, ast.Constant) and isinstance(body[i + 1].value.value, str):
             name = st.targets[0].id
             doc = None
             if i + 1 < len(body) and isinstance(body[i + 1], ast.Expr) and isinstance(body[i + 1].value, ast.Constant) and isinstance(body[i + 1].value.value, str):
@@ -114,9 +185,9 @@ def parameterisation(ctx, rule="TABLE-parameterisation"):
             ctx.bad(rule, construct, "defined", f"{name} is not defined through tfp_distribution", mod.path)
             continue
         st, first, dargs, doc = docs[name]
-        r = resolve_ctor(st.value.args[0], sigs) if st.value.args else None
+        r = resolve_def(ctx, mod, st, sigs)
         if r is None:
-            raise AnalysisError(f"{construct}: constructor expression {unp(st.value.args[0]) if st.value.args else None} not recognised")
+            raise AnalysisError(f"{construct}: constructor expression {unp(st.value)[:80]} not recognised")
         cls, binding, fixed, lam = r
         loc = ctx.loc(mod, st)
         if cls != cls_want:
@@ -185,7 +256,7 @@ def adev_param_agreement(ctx, rule="SIB-estimator-parameterisation"):
 
     def base_binding(name):
         st = docs[name][0]
-        return resolve_ctor(st.value.args[0], sigs)
+        return resolve_def(ctx, dmod, st, sigs)
 
     from ..symeval import ts as _ts
 
